@@ -3,6 +3,7 @@ package props
 import (
 	"fmt"
 	"math/big"
+	"strings"
 	"sync"
 	"sync/atomic"
 
@@ -71,6 +72,20 @@ func c05Values(r *eng.Run) {
 		}
 		if r.TooMany() {
 			break
+		}
+	}
+	// whitespace prefixes of many lengths in front of the boundary values (scanner bookkeeping
+	// relative to the start of the digits, not of the input)
+	for _, c := range centres {
+		for d := int64(-1); d <= 1; d++ {
+			v := new(big.Int).Add(c, big.NewInt(d))
+			for _, wl := range []int{1, 2, 7, 8, 9, 16, 17, 18, 19, 20, 21, 33, 64} {
+				for _, ws := range []string{" ", "\n", "\t\r"} {
+					pre := strings.Repeat(ws, wl)
+					one([]byte(pre + v.String()))
+					one([]byte(pre + "-" + v.String() + " "))
+				}
+			}
 		}
 	}
 	// all |v| < 10^5
